@@ -73,7 +73,7 @@ def _subs(tier):
 
 
 def jobs(tier):
-    return pack(_subs(tier), 48, lambda s: 1.0, 'c20-', weights='distinct', timeout=170 if tier == 'quick' else 300)
+    return pack(_subs(tier), 48, lambda s: 1.0, 'c20-', weights='distinct', timeout=240 if tier == 'quick' else 300)
 
 
 def bounds_text(tier):
